@@ -35,5 +35,14 @@ CHECKS['C01'] = dict(category='proof',
    note='Supported-size families are preconditions. Trusted: z3 (LIA + qe), the pyvc executor and builder rule (every counter-model is replayed on the real '
         'class). Known findings F-C01-a/b/c (RotatedToric3D odd x odd, non-square Color488 / Color666Toric) are proved-around by conjoining the negated region.',
    technique='VCs from the AST of each lattice class with symbolic lattice size (symbolic execution + builder-rule summaries), z3 LIA; run-time contracts for rank')
+CHECKS['C08'] = dict(category='proof',
+   text='For every class x deformation name x axis, get_deformation is executed symbolically at a symbolic qubit location on a lattice of symbolic size: z3 proves it '
+        'returns an involutive permutation of {X,Y,Z}, for XZZX the Hadamard exactly when qubit_axis(loc) equals the axis, for XY the Y<->Z swap, and that unknown '
+        'names/axes raise. The three closures installed by deform() are shown (derived rule R-mapvalues) to return the pointwise image {k: D_k(v)} with the same key set; '
+        'the noise model calls get_deformation with the same shape; a finite lemma shows every permutation is a symplectic GF(2)-linear map. History independence of '
+        'deform(), the syndrome / logical-effect / probability identities are run-time contracts on real objects (bounded).',
+   note='Assumed: qubit membership summarised by the builder rule; the MethodType/copy/hasattr capture protocol of deform() is outside the subset (bounded only). '
+        'Trusted: z3, pyvc. bpauli.apply_deformation is not covered deductively.',
+   technique='VCs from the AST of get_deformation / qubit_axis with symbolic location and lattice size; structural rule on the closures of deform; finite z3 lemma')
 _PENDING = 'check under construction in this session (contract-based check planned in DESIGN.md section 3); not claimed until its command exists'
 NOT_APPLICABLE = {p: _PENDING for p in ['C%02d' % i for i in range(1, 21)]}
